@@ -73,7 +73,7 @@ impl Monitor for C02 {
         ref_check(c, obs, Wants { spans: true, ..Default::default() })
     }
     fn workload(&self, w: &Work, emit: &mut dyn FnMut(Case)) -> J {
-        let n = w.share(40_000, 3_000_000);
+        let n = w.share(150_000, 5_000_000);
         let mut rng = w.rng("C02", 1);
         let mut strict = GenCfg::std(&['a', 'b', 'a', 'b', 'A', '\u{10400}', ' ']);
         strict.no_nullable_quant = true;
@@ -136,7 +136,7 @@ impl Monitor for C03 {
         ref_check(c, obs, Wants { spans: false, groups: true, analyze: true, is_match: false })
     }
     fn workload(&self, w: &Work, emit: &mut dyn FnMut(Case)) -> J {
-        let n = w.share(40_000, 3_000_000);
+        let n = w.share(150_000, 5_000_000);
         let mut rng = w.rng("C03", 1);
         let mut cfg = GenCfg::std(&['a', 'b', 'a', 'b', 'A', ' ', '\u{10400}']);
         cfg.no_nullable_quant = true;
@@ -276,7 +276,7 @@ impl Monitor for C19 {
         o
     }
     fn workload(&self, w: &Work, emit: &mut dyn FnMut(Case)) -> J {
-        let n = w.share(40_000, 3_000_000);
+        let n = w.share(150_000, 5_000_000);
         let mut rng = w.rng("C19", 1);
         for k in 0..n {
             if k % 10 == 9 {
@@ -440,7 +440,7 @@ impl Monitor for C11 {
         Outcome::Held
     }
     fn workload(&self, w: &Work, emit: &mut dyn FnMut(Case)) -> J {
-        let n = w.share(40_000, 3_000_000);
+        let n = w.share(150_000, 5_000_000);
         let mut rng = w.rng("C11", 1);
         let mut alpha = ci_alphabet();
         alpha.extend_from_slice(CI_CASELESS);
@@ -547,7 +547,7 @@ impl Monitor for C12 {
         }
         desc.set("exhaustive_small", J::obj().with("max_operators", J::u(n_ops as u64)).with("patterns_total", J::u(idx)).with("patterns_this_shard", J::u(mine)).with("inputs", J::u(inputs.len() as u64)).with("input_alphabet", J::s("a b LF CR")).with("max_input_len", J::u(len as u64)).with("note", J::s("patterns with <= 1 operator (thorough: <= 2) get every input; larger ones a deterministic 1/23 (thorough 1/17) slice")));
         // (b) random patterns forced to contain anchors / dot x all inputs up to length 3 + random longer
-        let n = w.share(3_000, 150_000);
+        let n = w.share(12_000, 300_000);
         let mut rng = w.rng("C12", 1);
         let mut cfg = GenCfg::std(&['a', 'b', '\n', 'a', 'b']);
         cfg.props = false;
